@@ -54,7 +54,8 @@ class References:
       orient = "+"
       if self._gfa.segment(from_segment.line) and self._gfa.segment(to_segment.line):
         l = self._gfa._search_link(from_segment, to_segment, cigar)
-        if l is not None and l.is_compatible_complement(from_segment, to_segment, cigar):
+        if l is not None and \
+            not l.is_compatible_direct(from_segment, to_segment, cigar):
           orient = "-"
       if l is None:
         if self._gfa._segments_first_order:
